@@ -128,15 +128,18 @@ fn observe(g: &SymModel, symmetric: bool, max_depth: Option<usize>) -> String {
             let i = NAMES.iter().position(|n| *n == name).unwrap();
             disc.insert(i, path.into_states().iter().map(|s| s.idx).collect::<Vec<u16>>());
         }
-        (c.unique_state_count(), c.state_count(), c.max_depth(), disc)
+        let done = c.is_done();
+        let ok = catch_unwind(AssertUnwindSafe(|| c.assert_properties())).is_ok();
+        (c.unique_state_count(), c.state_count(), c.max_depth(), disc, done, ok)
     }));
     match r {
         Err(_) => "panic".into(),
-        Ok((uniq, count, depth, disc)) => {
+        Ok((uniq, count, depth, disc, done, ok)) => {
             let vs = visits.lock().unwrap();
-            format!("(visits {}) (uniq {}) (count {}) (depth {}) (disc {})",
+            format!("(visits {}) (uniq {}) (count {}) (depth {}) (disc {}) (done {}) (assert {})",
                 format!("({})", vs.iter().map(|p| path_sx(p)).collect::<Vec<_>>().join(" ")), uniq, count, depth,
-                format!("({})", disc.iter().map(|(i, p)| format!("({} {})", i, path_sx(p))).collect::<Vec<_>>().join(" ")))
+                format!("({})", disc.iter().map(|(i, p)| format!("({} {})", i, path_sx(p))).collect::<Vec<_>>().join(" ")),
+                if done { "t" } else { "f" }, if ok { "ok" } else { "panic" })
         }
     }
 }
